@@ -50,7 +50,7 @@ def gen_case(seed: int, tier: str, index: int) -> Dict[str, Any]:
                 plan.append({"op": "unreg", "which": rng.randrange(16)})
             else:
                 burst = rng.choice([1, 1, 1, 2, 5])
-                plan.append({"op": "dgram", "datas": ["".join(rng.choice("ABC") for _ in range(rng.randint(1, 4))) + f"#{rng.randrange(10 ** 6)}" for _ in range(burst)]})
+                plan.append({"op": "dgram", "datas": ["".join(rng.choice("ABC") for _ in range(rng.randint(1, 4))) + f"#{len(plan)}.{b}.{rng.randrange(10 ** 6)}" for b in range(burst)]})
     elif sub == "life":
         T = rng.choice([0.15, 0.3, 0.5, 1.0, 2.0, 4.0])
         N = rng.choice([0, 1, 2, 3, 5, 10])
